@@ -77,6 +77,9 @@ def oracle_c08(b, report, modes=None):
     want = expected_rr(s)
     got = _walk(rd.rr_root, lambda n: n.decode('utf-8', 'replace') if isinstance(n, bytes) else n)
     got = {p: n for p, n in got.items() if p.split('/')[1] != 'rr_moved'}
+    # a user-made /RR_MOVED (Rock Ridge name rr_moved) IS the relocation directory: whether a reader shows it is not part of
+    # the logical tree on either side
+    want = {p: v for p, v in want.items() if p.split('/')[1] != 'rr_moved'}
     if set(want) != set(got):
         report('rr-tree', 'Rock Ridge logical tree differs from the one built: missing %s, unexpected %s'
                % (sorted(set(want) - set(got))[:3], sorted(set(got) - set(want))[:3]), None)
